@@ -224,10 +224,11 @@ def shard_cases(prop, cases, extra_imports, per=40):
                 fh.write(f"(* case {cid} *)\n{defs}\n")
             fh.write(f"Lemma shard_{si // per} : True.\nProof.\n")
             for cid, defs, expr in chunk:
-                fh.write(
-                    f'  first [ assert (({expr}) = true) by (vm_compute; reflexivity); idtac "CASE {cid} PASS"'
-                    f' | idtac "CASE {cid} FAIL" ].\n'
-                )
+                for suffix, ex1 in (expr if isinstance(expr, list) else [("", expr)]):
+                    fh.write(
+                        f'  first [ assert (({ex1}) = true) by (vm_compute; reflexivity); idtac "CASE {cid}{suffix} PASS"'
+                        f' | idtac "CASE {cid}{suffix} FAIL" ].\n'
+                    )
             fh.write("  exact I.\nQed.\n")
         files.append(name)
     out = run_coq_files(files)
